@@ -24,6 +24,21 @@ NP_PREFIXES = ("np.", "numpy.", "math.", "scipy.special.", "special.")
 MODULE_NAMES = {"np", "numpy", "scipy", "math", "linalg", "special", "integrate", "opt", "nd", "stats"}
 
 
+def _prime_powers(c):
+    """[(prime, exponent)] of a positive rational"""
+    out = {}
+    for n, sign in ((c.numerator, 1), (c.denominator, -1)):
+        d = 2
+        while n > 1 and d * d <= n:
+            while n % d == 0:
+                out[d] = out.get(d, 0) + sign
+                n //= d
+            d += 1
+        if n > 1:
+            out[n] = out.get(n, 0) + sign
+    return sorted((p_, k) for p_, k in out.items() if k != 0)
+
+
 class Poly:
     """sum of coeff * prod(atom^exp); monomial = tuple(sorted((atom, exp)))"""
 
@@ -83,6 +98,15 @@ class Poly:
             cp = _frac_pow(c, e)
             if cp is not None:
                 return Poly({tuple(sorted((a, x * e) for a, x in m)): cp})
+            if c > 0:
+                # (c * atoms)^e = c^e * atoms^e for a positive coefficient, with c split into prime powers: keeps sqrt(2) * sqrt(g), sqrt(2 g) and
+                # 1 / sqrt(1/2) in one form
+                r = Poly({tuple(sorted((a, x * e) for a, x in m)): Fraction(1)}) if m else Poly.const(1)
+                for prime, k in _prime_powers(c):
+                    ck = "(%d)" % prime
+                    _PAREN[ck] = Poly.const(prime)
+                    r = r * Poly.atom(ck, e * k)
+                return r
         key = "(" + self.canon() + ")"
         _PAREN[key] = self
         return Poly.atom(key, e)
@@ -101,6 +125,9 @@ class Poly:
                 for a, e in m:
                     if a in _PAREN and e.denominator == 1 and e >= 1:
                         term = term * _PAREN[a].power(e)
+                        changed = True
+                    elif a in _PAREN and e.denominator == 1 and _PAREN[a].is_const() and _PAREN[a].const_value() != 0:
+                        term = term * Poly.const(_PAREN[a].const_value() ** int(e))
                         changed = True
                     else:
                         term = term * Poly.atom(a, e)
@@ -298,7 +325,36 @@ class Normalizer:
             if m in ("sum", "T", "transpose") and not args:
                 return self._atom("%s(%s)" % (m, recv.canon()))
             return self._atom("%s.%s(%s)" % ("(" + recv.canon() + ")", m, ",".join([a.canon() for a in args] + ["%s=%s" % k for k in kw])))
+        return self._mk(fn, args, kw)
+
+    def _mk(self, fn, args, kw=()):
+        """function application with the identities of the special functions used for chi2 / normal distributions (everything is expressed through the
+        regularised upper incomplete gamma function Q = gammaincc and its inverse)"""
         args = [a.simplify() for a in args]
+        half, one, two = Poly.const(Fraction(1, 2)), Poly.const(1), Poly.const(2)
+        if not kw:
+            if fn == "chdtr" and len(args) == 2:  # chi2 CDF with v degrees of freedom at x
+                return one + self._mk("gammaincc", [args[0] * half, args[1] * half]).neg()
+            if fn == "chdtrc" and len(args) == 2:
+                return self._mk("gammaincc", [args[0] * half, args[1] * half])
+            if fn == "chdtri" and len(args) == 2:  # x with chdtrc(v, x) = p
+                return two * self._mk("gammainccinv", [args[0] * half, args[1]])
+            if fn == "gammainc" and len(args) == 2:
+                return one + self._mk("gammaincc", args).neg()
+            if fn == "gammaincinv" and len(args) == 2:
+                return self._mk("gammainccinv", [args[0], one + args[1].neg()])
+            if fn == "erf" and len(args) == 1:
+                return one + self._mk("gammaincc", [half, args[0].power(2)]).neg()
+            if fn == "erfc" and len(args) == 1:
+                return self._mk("gammaincc", [half, args[0].power(2)])
+            if fn == "erfinv" and len(args) == 1:
+                return self._mk("gammainccinv", [half, one + args[0].neg()]).power(Fraction(1, 2))
+            if fn == "erfcinv" and len(args) == 1:
+                return self._mk("gammainccinv", [half, args[0]]).power(Fraction(1, 2))
+            if fn == "expm1" and len(args) == 1:
+                return self._mk("exp", [args[0]]) + one.neg()
+            if fn == "log1p" and len(args) == 1:
+                return self._mk("log", [one + args[0]])
         acan = [a.canon() for a in args]
         # inverse pairs: f_inv(a, f(a, x)) -> x
         if len(args) == 2 and not kw and args[1].single_monomial():
@@ -307,9 +363,18 @@ class Normalizer:
                 ifn, iargs = _FUNCS[m[0][0]]
                 if (fn, ifn) in INVERSE_PAIRS and len(iargs) == 2 and iargs[0].canon() == acan[0]:
                     return iargs[1]
-        # gammaincc(1, x) = exp(-x)
+        # Q(1, x) = exp(-x) and its inverse
         if fn == "gammaincc" and len(args) == 2 and acan[0] == "1":
-            return self._call_text("exp", [args[1].neg()])
+            return self._mk("exp", [args[1].neg()])
+        if fn == "gammainccinv" and len(args) == 2 and acan[0] == "1":
+            return self._mk("log", [args[1]]).neg()
+        # exp / log cancel
+        if fn in ("exp", "log") and len(args) == 1 and args[0].single_monomial():
+            (m, c), = args[0].t.items()
+            if c == 1 and len(m) == 1 and m[0][1] == 1 and m[0][0] in _FUNCS:
+                ifn, iargs = _FUNCS[m[0][0]]
+                if {fn, ifn} == {"exp", "log"} and len(iargs) == 1:
+                    return iargs[0]
         if fn in COMMUTATIVE_CALLS:
             acan = sorted(acan)
         return self._call_text(fn, args, acan, kw)
